@@ -217,6 +217,38 @@ Proof.
   repeat split; auto. intro Hn. apply Hin. congruence.
 Qed.
 
+(* Lines of ANY length: a stream made of lines l1..lk (each followed by the
+   separator, none containing it) and an unterminated rest, read in any
+   non-empty chunks, feeds exactly the messages of l1..lk and keeps exactly the
+   rest -- there is no bound on the length of a line or of the rest. *)
+Theorem in_lines_any_length ls rest cs :
+  Forall (fun l => mem sep l = false) ls -> mem sep rest = false ->
+  Forall (fun c => c <> []) cs ->
+  concat cs = concat (map (fun l => l ++ [sep]) ls) ++ rest ->
+  let st := run_trace (init M) (reads cs) in
+  delivered st = fst (feed_lines ls) /\ dead st = snd (feed_lines ls) /\
+  (dead st = None -> inbuffer st = rest).
+Proof.
+  intros Hls Hrest Hne E. cbn zeta.
+  destruct (in_reads_spec cs Hne) as (A & B & C). cbn zeta in *.
+  unfold Model.spec_in, Model.spec_lines, Model.spec_rest in *. rewrite E in *.
+  rewrite (split_char_lines sep ls rest Hls), (split_char_nomem sep rest Hrest) in *.
+  rewrite removelast_last in *. rewrite last_last in *. auto.
+Qed.
+
+(* the same with the length of the line explicit: one line of n bytes, n arbitrary *)
+Theorem in_line_of_length (n : nat) line cs :
+  length line = n -> mem sep line = false ->
+  Forall (fun c => c <> []) cs -> concat cs = line ++ [sep] ->
+  let st := run_trace (init M) (reads cs) in
+  delivered st = fst (feed_lines [line]) /\ dead st = snd (feed_lines [line]) /\
+  (dead st = None -> inbuffer st = []).
+Proof.
+  intros _ Hl Hne E.
+  apply (in_lines_any_length [line] [] cs); auto.
+  cbn [map concat]. rewrite !app_nil_r. exact E.
+Qed.
+
 (* the partition of the stream into reads is invisible *)
 Theorem in_partition cs1 cs2 :
   Forall (fun c => c <> []) cs1 -> Forall (fun c => c <> []) cs2 ->
